@@ -19,6 +19,9 @@ func c02(c *q.Ctx) {
 	const utxo = "bcs/ledger/xledger/state/utxo::"
 	const st = "bcs/ledger/xledger/state::"
 	inputChecks(c)
+	if cb := c.Fn("bcs/ledger/xledger/ledger::(*Ledger).ConfirmBlock"); cb != nil {
+		dupTxDecision(c, cb)
+	}
 	d := c.Fn(st + "(*State).doTxInternal")
 	if d != nil {
 		marked := []q.Cond{{Canon: "p1.ModifyBlock.Marked", Sense: true}}
@@ -62,14 +65,7 @@ func c02(c *q.Ctx) {
 		utxo + "(*UtxoVM).ReloadTotal":     "re-read from the meta table after an operation failed before its batch was written",
 	}, "the in-memory total has one mutator")
 	reloadTotalRules(c)
-	if up := c.Fn(utxo + "(*UtxoVM).UpdateUtxoTotal"); up != nil {
-		c.ArgIs(up, "Batch.Put", 1, "*big.(*Int).Bytes(p0.utxoTotal)*", 1, "the persisted total is the in-memory total")
-		c.Before(up, q.ToCall("Batch.Put"), q.ToReturn(), "every change of the in-memory total is staged in the caller's batch, in both directions")
-		c.ArgIs(up, "Batch.Put", -1, "p2", 1, "staged in the batch of the block being played or undone")
-		c.EffectExists(up, "Batch.Put", 0, "append(\"M\",\"xtotal\")", nil, "the persisted total lives under the meta key NewState reloads")
-		c.Guard(up, q.Cond{Canon: "p3", Sense: true}, q.ToCall("big::Int.Sub"), q.Opt{})
-		c.Guard(up, q.Cond{Canon: "p3", Sense: false}, q.ToCall("big::Int.Add"), q.Opt{})
-	}
+	utxoTotalStaging(c)
 	// award
 	const led = "bcs/ledger/xledger/ledger::"
 	iv := c.Fn(led + "(*Ledger).IsValidTx")
@@ -152,5 +148,19 @@ func reloadTotalRules(c *q.Ctx) {
 		// ... on every path except a real storage error: `not found` means nothing was ever committed, i.e. zero
 		c.Then(rt, q.ToCall("kvdb::Database.Get"), q.ToFieldStore("UtxoVM.utxoTotal"), q.ToAnyReturn(), []q.Cond{{Canon: "(def.NormalizedKVError(i:Database.Get(p0.metaHandle.MetaTable,\"xtotal\")#1) == g:ErrKVNotFound)", Sense: false}}, "the in-memory total is re-installed unless the table cannot be read")
 		c.WhoCalls("UtxoVM.ReloadTotal", map[string]string{"bcs/ledger/xledger/state::(*State).ClearCache": "cache invalidation after a failed operation"}, "the total is re-read only as part of invalidating the caches")
+	}
+}
+
+// utxoTotalStaging (C02, C06): every change of the in-memory total is staged, as the in-memory value, in the batch of
+// the block being played or undone - the total on disk after a crash is the total of the blocks on disk.
+func utxoTotalStaging(c *q.Ctx) {
+	const utxo = "bcs/ledger/xledger/state/utxo::"
+	if up := c.Fn(utxo + "(*UtxoVM).UpdateUtxoTotal"); up != nil {
+		c.ArgIs(up, "Batch.Put", 1, "*big.(*Int).Bytes(p0.utxoTotal)*", 1, "the persisted total is the in-memory total")
+		c.Before(up, q.ToCall("Batch.Put"), q.ToReturn(), "every change of the in-memory total is staged in the caller's batch, in both directions")
+		c.ArgIs(up, "Batch.Put", -1, "p2", 1, "staged in the batch of the block being played or undone")
+		c.EffectExists(up, "Batch.Put", 0, "append(\"M\",\"xtotal\")", nil, "the persisted total lives under the meta key NewState reloads")
+		c.Guard(up, q.Cond{Canon: "p3", Sense: true}, q.ToCall("big::Int.Sub"), q.Opt{})
+		c.Guard(up, q.Cond{Canon: "p3", Sense: false}, q.ToCall("big::Int.Add"), q.Opt{})
 	}
 }
